@@ -1215,6 +1215,10 @@ func (c *Conn) writeRequest(ctx *Ctx) error {
 	// without one. Whoever takes it out of the table deals with it.
 	if atomic.LoadUint32(&c.goAway) != 0 {
 		ReleaseHeaderField(hf)
+
+		// deletePending takes the Ctx to close a streamed body, and the lock
+		// is not reentrant.
+		release()
 		c.deletePending(id)
 
 		if c.takeReq(id) {
@@ -1245,6 +1249,11 @@ func (c *Conn) writeRequest(ctx *Ctx) error {
 		c.setLastErr(err)
 		// if we had any error, remove it from the reqQueued.
 		c.dequeueReq(id)
+
+		// deletePending takes the Ctx to close a streamed body, and the lock
+		// is not reentrant: holding it here left the write loop waiting for
+		// itself, and every request on the connection waiting for the loop.
+		release()
 		c.deletePending(id)
 
 		return err
